@@ -4,7 +4,7 @@ set -u
 id=$1; name=$2; tier=${3:-quick}
 dir=$(mktemp -d /root/scratch/seedrun-XXXXXX); rmdir "$dir"
 git -C /repo worktree add -q --detach "$dir" HEAD || exit 2
-git -C "$dir" apply "/verif/seeded/$name/patch.diff" || { echo "patch does not apply"; git -C /repo worktree remove --force "$dir"; exit 2; }
+{ git -C "$dir" apply "/verif/seeded/$name/patch.diff" 2>/dev/null || git -C "$dir" apply -3 "/verif/seeded/$name/patch.diff" >/dev/null 2>&1; } || { echo "patch does not apply"; git -C /repo worktree remove --force "$dir"; exit 2; }
 out=$(VERIF_REPO=$dir /verif/check "$id" "$tier" -no-evidence 2>&1); rc=$?
 sfx=$(echo "$dir" | tr '/' '_')
 rm -f /verif/bin/*"$sfx" /verif/.build/*"$sfx"*
